@@ -328,4 +328,6 @@ def rule_ods_cell_texts(ctx):
     rule_cell_texts(ctx, "O17.5")
 
 
-RULES = [rule_auto_rows, rule_raw_rows, rule_attribute_availability, rule_format_independent_hooks, rule_ods_cell_texts]
+from .common import rule_module_state  # noqa: E402
+
+RULES = [rule_auto_rows, rule_raw_rows, rule_attribute_availability, rule_format_independent_hooks, rule_ods_cell_texts, rule_module_state]
